@@ -19,6 +19,10 @@ class HamiltonianType(Enum):
     XY = 2
 
 
+# Relative times closer than this are one and the same evaluation time for pulser
+# (pulser.backend.observable.TIME_TOLERANCE).
+_TIME_TOLERANCE = 1e-12
+
 _NON_LINDBLADIAN_NOISE = {
     "SPAM",
     "doppler",
@@ -85,7 +89,16 @@ def _get_target_times(
     }
     evolution_times_rel.add(1.0)
     target_times_rel = evolution_times_rel | _unique_observable_times(config)
-    target_times: list[float] = sorted({t * duration for t in target_times_rel})
+    target_times: list[float] = []
+    for t in sorted({t * duration for t in target_times_rel}):
+        # Round-off (3 * 0.1 / 10 * 10 != 0.03 * 10) or observables asking for almost the
+        # same time give points that pulser considers to be a single evaluation time.
+        # Keep one of them: otherwise the solver takes a zero-length step and pulser
+        # rejects the evaluation times of the run as repeated.
+        if target_times and t / duration - target_times[-1] / duration < _TIME_TOLERANCE:
+            continue
+        target_times.append(t)
+    target_times[-1] = duration  # the end of the sequence is never the point dropped
     return target_times
 
 
